@@ -219,6 +219,7 @@ static void *cr_thread(void *arg)
 		if (op->skip)
 			continue;
 		usim_trace("op %d.%d %s", me, i, opname[op->kind]);
+		op_stall_begin(op);
 		switch (op->kind) {
 		case OP_READ: do_read(me, op); break;
 		case OP_CALL: do_call(me, op->c, NULL, op->b & 1); break;
@@ -293,6 +294,7 @@ static void *cr_thread(void *arg)
 			poll_check(me, op->a % 3, "poll_state_synchronize_rcu() returning true");
 			break;
 		}
+		op_stall_end();
 	}
 	/* final stage: everything this thread started must complete */
 	usim_quiet_vote();
@@ -371,6 +373,7 @@ static void gen(void)
 				op->a = rnd(3) == 0;	/* RT (polling) helper */
 			op->b = rnd(4);
 			op->c = rnd(4) == 0 ? 1 + rnd(2) : 0;	/* chain depth */
+			op_stall_gen(op, 5, 16);
 			usim_describe("%s\"%s", i ? "," : "", opname[op->kind]);
 			if (op->kind == OP_CALL && op->c)
 				usim_describe("(chain%d)", op->c);
